@@ -638,7 +638,7 @@ theorem index_hash_size_eq (hst : Index.HashSt) (h : hst.listSize + 17 < U64) :
     `HashSt.append`, as long as no 64-bit sum wraps (each total is checked against LZMA_VLI_MAX right afterwards). -/
 theorem index_hash_append_sizes_eq (unp unc bsz cnt lsz usz : Nat)
     (h1 : bsz + unp + 3 < U64) (h2 : usz + unc < U64) (h3 : lsz + 18 < U64) (h4 : cnt + 1 < U64) :
-    Kernels.index_hash_append_sizes unp unc bsz cnt lsz usz
+    Kernels.index_hash_append_sizes bsz cnt lsz usz unc unp
       = (0, bsz + Index.vliCeil4 unp, cnt + 1, lsz + Index.vliSize unp + Index.vliSize unc, usz + unc) := by
   unfold U64 at *
   unfold Kernels.index_hash_append_sizes
@@ -705,6 +705,20 @@ theorem hardware_memlimit_get_eq (mode mc md : Nat) :
       = XzAdjust.hardwareMemlimitGet (if mode = 0 then .compress else .decompress) mc md := by
   unfold Kernels.hardware_memlimit_get XzAdjust.hardwareMemlimitGet Memusage.UINT64_MAX
   by_cases h : mode = 0 <;> simp [h]
+
+/-- `hardware_memlimit_mtenc_is_default()` and `hardware_memlimit_mtenc_get()` as functions of the file-scope variables
+    `memlimit_compress`, `memlimit_decompress`, `memlimit_mt_default`, `threads_are_automatic` -/
+theorem hardware_memlimit_mtenc_eq (c : XzAdjust.Config) :
+    Kernels.hardware_memlimit_mtenc_is_default c.memlimitCompress c.threadsAuto = XzAdjust.mtencIsDefault c
+    ∧ Kernels.hardware_memlimit_mtenc_get c.memlimitCompress c.memlimitDecompress c.memlimitMtDefault c.threadsAuto = XzAdjust.mtencGet c := by
+  have h1 : Kernels.hardware_memlimit_mtenc_is_default c.memlimitCompress c.threadsAuto = XzAdjust.mtencIsDefault c := by
+    unfold Kernels.hardware_memlimit_mtenc_is_default XzAdjust.mtencIsDefault
+    cases c.threadsAuto <;> simp
+  refine ⟨h1, ?_⟩
+  unfold Kernels.hardware_memlimit_mtenc_get XzAdjust.mtencGet
+  rw [h1]
+  unfold Kernels.hardware_memlimit_get Memusage.UINT64_MAX
+  simp
 
 /-- `round_up_to_mib` -/
 theorem round_up_to_mib_eq (n : Nat) (h : n < U64) : Kernels.round_up_to_mib n = (n + 1048575) / 1048576 := by
